@@ -570,12 +570,25 @@ func (in *Interp) runHarness(fn *ssa.Function, name string) *HarnessRun {
 			break
 		}
 	}
-	for l := range in.h.ReachDecl {
-		if !in.h.Reached[l] {
-			in.h.Inconclusive = append(in.h.Inconclusive, "vacuity: witness not reachable: "+l)
-		}
-	}
 	return in.h
+}
+
+// finishReach: witnesses that no path reached. A plain Reach label is a vacuity failure
+// (inconclusive); a Possible label is a violation - provided the exploration was complete
+// (no abort, no path limit, no undecided query), otherwise it stays inconclusive.
+func finishReach(r *HarnessRun) {
+	complete := len(r.Inconclusive) == 0 && r.Undecided == 0
+	for _, l := range sortedKeys(r.ReachDecl) {
+		if r.Reached[l] {
+			continue
+		}
+		if m, isPoss := r.PossDecl[l]; isPoss && complete {
+			r.Violations = append(r.Violations, &Violation{Label: l, Kind: "impossible", Model: m,
+				Detail: "no input, random outcome or schedule within the bounds makes this happen (unsat on every path that declares it)"})
+			continue
+		}
+		r.Inconclusive = append(r.Inconclusive, "vacuity: witness not reachable: "+l)
+	}
 }
 
 // ---------------------------------------------------------------- known findings
@@ -768,13 +781,19 @@ func main() {
 				v := &Violation{Label: lab, Kind: "witness", Model: hr.ReachModel[lab], Sched: hr.ReachSched[lab]}
 				writeReplay(path, prop, h, v, *flagTier)
 				witnessReplayed++
-				ok, out := replayWitness(repo, verif, dirFiles, h, path, lab, hr.ReachObserve[lab])
+				knownLabels := map[string]bool{}
+				for _, f := range findings {
+					if f.Status == "known" && f.Property == prop && f.Harness == h.Name {
+						knownLabels[f.Label] = true
+					}
+				}
+				ok, out := replayWitness(repo, verif, dirFiles, h, path, lab, hr.ReachObserve[lab], knownLabels)
 				if !ok && len(v.Sched) > 0 {
 					// the native thread structure can differ from the symbolic one (symbolic-only stubs);
 					// a witness may also be replayed with the goroutines running freely
 					v.Sched = nil
 					writeReplay(path, prop, h, v, *flagTier)
-					ok, out = replayWitness(repo, verif, dirFiles, h, path, lab, hr.ReachObserve[lab])
+					ok, out = replayWitness(repo, verif, dirFiles, h, path, lab, hr.ReachObserve[lab], knownLabels)
 				}
 				if ok {
 					witnessOK++
